@@ -513,32 +513,39 @@ impl<'a, SE: extensions::ShellExtensions> SimpleCommand<'a, SE> {
         if let ShellForCommand::OwnedShell { target, .. } = self.shell {
             let mut shell = *target;
             let (command_name, params, args) = (self.command_name, self.params, self.args);
-            let join_handle = tokio::spawn(async move {
-                let cmd_context = ExecutionContext {
-                    shell: &mut shell,
-                    command_name,
-                    params,
-                };
-                let stderr_params = cmd_context.params.clone();
-                let result = match invoke_shell_function(func_registration, cmd_context, &args[1..])
-                    .await
-                {
-                    Ok(spawn_result) => spawn_result.wait().await,
-                    Err(err) => Err(err),
-                };
-                match result {
-                    Ok(crate::results::ExecutionWaitResult::Completed(result)) => Ok(result),
-                    Ok(crate::results::ExecutionWaitResult::Stopped(_)) => {
-                        Ok(ExecutionResult::stopped())
+            // N.B. Like builtin stages, the stage gets a thread of its own: it reads and writes
+            // its pipes synchronously, so on a runtime worker it could keep the stage that would
+            // unblock it from ever running when workers are scarce.
+            let join_handle = tokio::task::spawn_blocking(move || {
+                let rt = tokio::runtime::Handle::current();
+                rt.block_on(async move {
+                    let cmd_context = ExecutionContext {
+                        shell: &mut shell,
+                        command_name,
+                        params,
+                    };
+                    let stderr_params = cmd_context.params.clone();
+                    let result =
+                        match invoke_shell_function(func_registration, cmd_context, &args[1..])
+                            .await
+                        {
+                            Ok(spawn_result) => spawn_result.wait().await,
+                            Err(err) => Err(err),
+                        };
+                    match result {
+                        Ok(crate::results::ExecutionWaitResult::Completed(result)) => Ok(result),
+                        Ok(crate::results::ExecutionWaitResult::Stopped(_)) => {
+                            Ok(ExecutionResult::stopped())
+                        }
+                        Err(err) => {
+                            // The stage runs in a subshell of its own: report the error there
+                            // and reduce it to the stage's status.
+                            let mut stderr = stderr_params.stderr(&shell);
+                            let _ = shell.display_error(&mut stderr, &err);
+                            Ok(err.into_result(&shell))
+                        }
                     }
-                    Err(err) => {
-                        // The stage runs in a subshell of its own: report the error there
-                        // and reduce it to the stage's status.
-                        let mut stderr = stderr_params.stderr(&shell);
-                        let _ = shell.display_error(&mut stderr, &err);
-                        Ok(err.into_result(&shell))
-                    }
-                }
+                })
             });
             return Ok(ExecutionSpawnResult::StartedTask(join_handle));
         }
